@@ -273,7 +273,8 @@ func nonRepeating(symbols []pr.NamedString, firstValue, value int) (string, bool
 
 // Implement the algorithm for `type: symbolic`.
 func symbolic(symbols []pr.NamedString, value int) (string, bool) {
-	if len(symbols) == 0 {
+	// the symbolic system is only defined over strictly positive values
+	if len(symbols) == 0 || value < 1 {
 		return "", false
 	}
 	L := len(symbols)
@@ -285,7 +286,8 @@ func symbolic(symbols []pr.NamedString, value int) (string, bool) {
 // Implement the algorithm for `type: alphabetic`.
 func alphabetic(symbols []pr.NamedString, value int) (string, bool) {
 	L := len(symbols)
-	if L < 2 {
+	// the alphabetic system is only defined over strictly positive values
+	if L < 2 || value < 1 {
 		return "", false
 	}
 	reversedParts := []string{}
